@@ -51,6 +51,37 @@ theorem shape_insertGroups (s : State) (b upd user : Nat) (specs : List GroupSpe
   all_goals first | exact Shape.refl s | skip
   next s' hr => exact shape_foldGroups b upd _ _ s s' hr
 
+/-- the row-by-row outcome of the multi-row `INSERT INTO jobs` is `none` exactly for a clean bunch -/
+theorem jobRowsOutcome_none (s : State) (b : Nat) : ∀ (js : List Job) (seen : List Nat),
+    jobRowsOutcome s b js seen = none →
+    (∀ j ∈ js, groupCancelled s b j.group = false ∧ (findGroup s b j.group).isSome ∧ findJob s b j.id = none ∧ j.id ∉ seen) ∧
+      (js.map (·.id)).Nodup := by
+  intro js
+  induction js with
+  | nil => intro seen _; simp
+  | cons j rest ih =>
+    intro seen h
+    unfold jobRowsOutcome at h
+    split_ifs at h with h1 h2 h3
+    have h1' : groupCancelled s b j.group = false := by simpa using h1
+    simp only [not_or, List.contains_iff_mem, Bool.not_eq_true] at h2
+    have h2a : findJob s b j.id = none := by simpa using h2.1
+    have h3' : (findGroup s b j.group).isSome := by
+      simpa [Option.isSome_iff_ne_none] using h3
+    obtain ⟨hall, hnd⟩ := ih (j.id :: seen) h
+    refine ⟨?_, ?_⟩
+    · intro x hx
+      rcases List.mem_cons.mp hx with rfl | hx
+      · exact ⟨h1', h3', h2a, by simpa using h2.2⟩
+      · obtain ⟨a, b', c, d⟩ := hall x hx
+        exact ⟨a, b', c, fun hm => d (List.mem_cons_of_mem _ hm)⟩
+    · rw [List.map_cons, List.nodup_cons]
+      refine ⟨?_, hnd⟩
+      intro hm
+      rw [List.mem_map] at hm
+      obtain ⟨x, hx, hxe⟩ := hm
+      exact (hall x hx).2.2.2 (by rw [hxe]; exact List.mem_cons_self)
+
 /-- what an accepted bunch guarantees about the inserted rows -/
 theorem insertJobsReject_none {s : State} {b user : Nat} {u : Update} {bt : Batch} {first : JobSpec} {specs : List JobSpec}
     (h : insertJobsReject s b user u bt first specs = none) :
@@ -59,13 +90,34 @@ theorem insertJobsReject_none {s : State} {b user : Nat} {u : Update} {bt : Batc
       bt.user = user ∧ bt.deleted = false := by
   unfold insertJobsReject at h
   dsimp only at h
-  split_ifs at h with h1 h2 h3 h4 h5 h6 h7
-  simp only [not_or, Decidable.not_not, Bool.not_eq_true, List.any_eq_false] at h1 h4 h5 h6
-  refine ⟨?_, h6.2, by simpa using h2, by simpa using h1.1, by simpa using h1.2⟩
-  intro j hj
-  refine ⟨by simpa using h4 j hj, ?_, ?_⟩
-  · have := h5 j hj; simpa [Option.isSome_iff_ne_none] using this
-  · have := h6.1 j hj; simpa using this
+  by_cases h1 : bt.user ≠ user ∨ bt.deleted = true
+  · simp [h1] at h
+  by_cases h2 : u.committed = true
+  · simp [h1, h2] at h
+  rw [if_neg h1, if_neg h2] at h
+  simp only [not_or, Decidable.not_not, Bool.not_eq_true] at h1
+  cases hr : jobRowsOutcome s b (specs.map (mkJob u b)) [] with
+  | some o => rw [hr] at h; simp at h
+  | none =>
+    obtain ⟨hall, hnd⟩ := jobRowsOutcome_none s b _ [] hr
+    exact ⟨fun j hj => ⟨(hall j hj).1, (hall j hj).2.1, (hall j hj).2.2.1⟩, hnd, by simpa using h2, by simpa using h1.1,
+      by simpa using h1.2⟩
+
+/-- ER_DUP_ENTRY early return: the first row of the bunch passes the trigger and already exists ⇒ `ok 0` -/
+theorem insertJobsReject_dup (s : State) (b user : Nat) (first : JobSpec) (rest : List JobSpec) (u : Update) (bt : Batch)
+    (h1 : bt.user = user) (h2 : bt.deleted = false) (h3 : u.committed = false)
+    (hnc : groupCancelled s b (mkJob u b first).group = false)
+    (hdup : (findJob s b (first.relId + u.startJob - 1)).isSome) :
+    insertJobsReject s b user u bt first (first :: rest) = some (.ok 0) := by
+  unfold insertJobsReject
+  dsimp only
+  rw [if_neg (by simp [h1, h2]), if_neg (by simp [h3])]
+  have : jobRowsOutcome s b ((first :: rest).map (mkJob u b)) [] = some (.ok 0) := by
+    simp only [List.map_cons, jobRowsOutcome]
+    rw [if_neg (by simp [hnc])]
+    have hid : (mkJob u b first).id = first.relId + u.startJob - 1 := rfl
+    rw [if_pos (Or.inl (by rw [hid]; exact hdup))]
+  rw [this]
 
 theorem shape_insertJobsApply (s : State) (b upd user : Nat) (u : Update) (bt : Batch) (first : JobSpec)
     (specs : List JobSpec) (h : insertJobsReject s b user u bt first specs = none) :
